@@ -32,6 +32,8 @@ def run(chk):
     _fi = chk.P.fn(ZC)
     leading_zero_tests(chk, "R-ZC-STRICT", _fi, "all_zc_indices", "eqsig/fns/peaks_and_crossings.py:get_zero_crossings_array_indices",
                        what="a missing index 0", minimum=0)
+    from ..tyob import plateau_cleaner_exact
+    plateau_cleaner_exact(chk, "R-SW-COVER")
     chk.floor("R-ZC-STRICT", 8)
     chk.floor("R-TOL-SUB", 3)
     chk.floor("R-SW-COVER", 3)
